@@ -460,6 +460,19 @@ func c34History(r *Rec, prop string, h int, nBlocks int) {
 					_, err := e.bs.BasketTokenMint(sdk.WrapSDKContext(ctx), &baskettypes.MsgBasketTokenMint{Sender: A[s].String(), BasketId: basketID, Deposit: dep})
 					return err
 				}})
+			case x < 63 && x >= 60 && r.Rng.Intn(2) == 0:
+				// a fee-bearing swap leaves a surplus in the basket; a WithdrawSurplus proposal pays it out — its id list may
+				// name the basket twice
+				ops = append(ops, c34Op{"basket-swap", s, func(ctx sdk.Context) error {
+					_, err := e.bs.BasketTokenSwap(sdk.WrapSDKContext(ctx), &baskettypes.MsgBasketTokenSwap{Sender: A[s].String(), BasketId: basketID,
+						Pairs: []baskettypes.SwapPair{{InAmount: sdk.NewInt64Coin("ukex", 1000+amt), OutToken: "ueth"}}})
+					return err
+				}})
+			case x < 63 && x >= 60:
+				ids := [][]uint64{{basketID}, {basketID, basketID}, {basketID, basketID, basketID}}[r.Rng.Intn(3)]
+				ops = append(ops, c34Op{"basket-withdraw-surplus", sudo, func(ctx sdk.Context) error {
+					return app.BasketKeeper.BasketWithdrawSurplus(ctx, baskettypes.ProposalBasketWithdrawSurplus{BasketIds: ids, WithdrawTarget: A[other].String()})
+				}})
 			case x < 66:
 				ops = append(ops, c34Op{"basket-burn", s, func(ctx sdk.Context) error {
 					bal := app.BankKeeper.GetBalance(ctx, A[s], "b1/usd")
